@@ -29,6 +29,10 @@ var rtVarKinds = []varKind{
 	{name: "num", good: []string{"5", "55"}, bad: []string{"05", "x"}},
 	{re: `[a-c]{2,}`, good: []string{"ab", "abc"}, bad: []string{"a", "abd"}},
 	{re: `x?y`, good: []string{"y", "xy"}, bad: []string{"xxy", "x"}},
+	// a custom regex under the name of a global variable: the custom regex wins
+	{name: "all", re: `[a-z]+`, good: []string{"abc", "z"}, bad: []string{"A/b", "a/b", "a1", ""}},
+	{name: "any", re: `\d+`, good: []string{"12"}, bad: []string{"abc", "1a"}},
+	{name: "num", re: `[a-c]+`, good: []string{"abc"}, bad: []string{"12", "5"}},
 }
 
 type rtPart struct {
@@ -49,6 +53,14 @@ func (g *rtG) seg(allowVar bool) []rtPart {
 	r := g.r
 	if allowVar && r.Chance(1, 2) {
 		vk := &rtVarKinds[r.Intn(len(rtVarKinds))]
+		// one pattern never uses a forced name with two different regexes (rux keeps one regex per name;
+		// a name that occurs twice in one pattern is outside what the properties talk about)
+		for vk.name != "" && g.used[vk.name] != "" && g.used[vk.name] != "="+vk.re {
+			vk = &rtVarKinds[r.Intn(len(rtVarKinds))]
+		}
+		if vk.name != "" {
+			g.used[vk.name] = "=" + vk.re
+		}
 		g.nv++
 		name := fmt.Sprintf("v%d", g.nv)
 		if vk.name != "" {
@@ -71,11 +83,13 @@ type rtG struct {
 	r    *Rng
 	nv   int
 	pool []string
+	used map[string]string
 }
 
 func (g *rtG) pattern() *rtPat {
 	r := g.r
 	p := &rtPat{}
+	g.used = map[string]string{}
 	n := r.Range(1, 4)
 	for i := 0; i < n; i++ {
 		p.req = append(p.req, g.seg(true))
@@ -279,7 +293,7 @@ func (g *rtG) probeMethod(t *rtTable) string {
 }
 
 func newRtG(r *Rng) *rtG {
-	g := &rtG{r: r}
+	g := &rtG{r: r, used: map[string]string{}}
 	for k := r.Range(2, 5); k > 0; k-- {
 		g.pool = append(g.pool, rtLits[r.Intn(len(rtLits))])
 	}
